@@ -537,7 +537,10 @@ pub fn check_c03(ix: &Ix<'_>, v: &mut Vec<Violation>) {
         if let Some((xs, outcome)) = &g.exit {
             let unmappable = match outcome {
                 Outcome::Err => true,
-                Outcome::Neg(_) => !v5 || seen.qos == 0,
+                // MQTT 5, QoS 0: the error is mapped but there is no acknowledgement to carry the code; the
+                // statement only demands that nothing is acknowledged (the server dispatchers and the plain
+                // client end the connection, the client router path carries on: both satisfy it)
+                Outcome::Neg(_) => !v5 || (seen.qos == 0 && !(ix.out.plan.cfg.use_router && !ix.out.plan.role.is_server())),
                 _ => false,
             };
             if unmappable && ix.out.plan.ending != Ending::Stop && !ix.out.budget_hit && ix.out.panic.is_none() {
